@@ -307,6 +307,9 @@ def run(chk: Check) -> None:
     # ---- guard kernels: the code's own predicates vs their Lean models (Props/C02Guards.lean) ----
     import c02_guards
     chk.info("guard_kernels", c02_guards.check(chk, rng))
+    # ---- the ONNX facts assumed as Laws (Reshape, Not, Swish) executed in onnxruntime ----
+    import c02_laws
+    chk.info("assumed_laws_validated_in_onnxruntime", c02_laws.check(chk, rng))
     # ---- graph edits: onnx_ir's replace_all_uses_with / graph.remove vs Model/GraphEdit.lean ----
     import c02_edits
     chk.info("graph_edits", c02_edits.check(chk, rng, 600 if thorough else 250))
